@@ -22,7 +22,12 @@ CFG = {
             "read complete?, client gone, saw EOF, close_returned(result), waiter released(result), "
             "connect-after-close result), judged in Coq: the property clauses evaluated on the log (spec) and "
             "acceptance by the shutdown model with the unobservable server-internal steps placed. Non-trivial: "
-            "at least one connection or waiter; distinct by scenario script. In-flight handlers come in two "
+            "at least one connection or waiter; distinct by scenario script. Long in-flight requests (group long, "
+            "hold:6.5s; thorough also hold:12s, via drop): per mode and transport one scenario with two staying "
+            "clients (small and 1 MiB response) and an idle keep-alive connection whose handlers are released only "
+            "6.5 s / 12 s after close() - beyond any drain deadline - run on threads of their own, overlapping "
+            "the rest; a staying client that sees its connection end without a response counts as unanswered "
+            "(fate SawEnd in Run_C17.v), not as having left. In-flight handlers come in two "
             "spellings: one keeps its RequestContext to the end, the other (conn:*-context-dropped, endpoint "
             "/d/{id}) clones what it needs, drops the RequestContext - and the Arc<DropshotState> in it - and "
             "then does its held work; the second is used for gone-client handlers alone, among others, via "
